@@ -648,13 +648,13 @@ Proof.
   { intros B. unfold py_str. destruct (- v =? 0); [eauto|].
     set (P10 := pow10_limit) in *. clearbody P10.
     destruct (Z.leb_spec P10 (Z.abs (- v))); [lia|]. eauto. }
-  destruct repaired.
-  - unfold int_const_text. destruct (Z.gtb_spec (Z.abs (- v)) (10 ^ 13)) as [G|L].
-    + destruct (py_hex_roundtrip (- v)) as (S & R'). exists (py_hex (- v)). rewrite S. auto.
-    + assert (B13 : 10 ^ 13 < pow10_limit) by (vm_compute; reflexivity).
+  destruct repaired; cbn [andb].
+  - destruct (Z.gtb_spec (Z.abs (- v)) (2 ^ 64)) as [G|L].
+    + destruct (py_hex_roundtrip (- v)) as (S & R'). exists (py_hex (- v)). auto.
+    + assert (B13 : 2 ^ 64 < pow10_limit) by (vm_compute; reflexivity).
       assert (B : Z.abs v < pow10_limit) by (set (P10 := pow10_limit) in *; clearbody P10; lia).
       destruct (PSok B) as (s' & PS). rewrite PS.
-      destruct (py_str_roundtrip _ s' PS) as (S & R'). exists s'. rewrite S. auto.
+      destruct (py_str_roundtrip _ s' PS) as (S & R'). exists s'. auto.
   - destruct H as [?|Hv]; [discriminate|].
     destruct (PSok Hv) as (s' & PS). rewrite PS.
     destruct (py_str_roundtrip _ s' PS) as (S & R'). exists s'. auto.
@@ -668,3 +668,453 @@ Proof.
   - unfold negated_literal_text. rewrite (proj2 (py_hex_roundtrip pow10_limit)). vm_compute. reflexivity.
 Qed.
 
+(* ------------------------------------------------------------------ *)
+(* C. constant pooling keys                                            *)
+(* ------------------------------------------------------------------ *)
+
+Section cnode_induction.
+  Variable P : cnode -> Prop.
+  Hypothesis HL : forall ty v, P (NLeaf ty v).
+  Hypothesis HQ : forall ty lit mult args,
+    (forall m, mult = Some m -> P m) -> Forall P args -> P (NSeq ty lit mult args).
+  Hypothesis HS : forall ty a b c, P a -> P b -> P c -> P (NSlice ty a b c).
+  Hypothesis HO : P NOpaque.
+  Fixpoint cnode_ind2 (n : cnode) : P n :=
+    match n with
+    | NLeaf ty v => HL ty v
+    | NSeq ty lit mult args =>
+        HQ ty lit mult args
+           (fun m => match mult as o return o = Some m -> P m with
+                     | Some m' => fun E => match E in _ = o return match o with Some x => P x | None => True end
+                                           with eq_refl => cnode_ind2 m' end
+                     | None => fun E => match E with eq_refl => I end
+                     end)
+           ((fix go (l : list cnode) : Forall P l :=
+               match l with [] => Forall_nil P | x :: t => Forall_cons x (cnode_ind2 x) (go t) end) args)
+    | NSlice ty a b c => HS ty a b c (cnode_ind2 a) (cnode_ind2 b) (cnode_ind2 c)
+    | NOpaque => HO
+    end.
+End cnode_induction.
+
+Lemma ntype_eqb_eq a b : ntype_eqb a b = true -> a = b.
+Proof. destruct a, b; cbn; try discriminate; try reflexivity. intros H. f_equal. lia. Qed.
+
+Lemma ntype_eqb_refl a : ntype_eqb a a = true.
+Proof. destruct a; cbn; try reflexivity. lia. Qed.
+
+Lemma zlist_eqb_eq a : forall b, zlist_eqb a b = true -> a = b.
+Proof.
+  induction a as [|x a IH]; destruct b as [|y b]; cbn; try discriminate; try reflexivity.
+  intros H. apply andb_prop in H. destruct H as [H1 H2]. f_equal; [lia|apply IH; assumption].
+Qed.
+
+(* IEEE equality plus equal sign bit is equality of bit patterns *)
+Lemma float_exact x y : 0 <= x < 2 ^ 64 -> 0 <= y < 2 ^ 64 ->
+  float_eq x y = true -> f_sign x = f_sign y -> x = y.
+Proof.
+  intros Hx Hy E S. unfold float_eq in E. apply andb_prop in E. destruct E as [_ E].
+  apply orb_prop in E. destruct E as [E|E]; [lia|].
+  apply andb_prop in E. destruct E as [Zx Zy]. unfold f_is_zero, f_sign in *.
+  pose proof (Z.div_mod x (2 ^ 63) ltac:(lia)). pose proof (Z.div_mod y (2 ^ 63) ltac:(lia)). lia.
+Qed.
+
+Definition leaf_cls (ty : ntype) (v : scalar) : option pyclass :=
+  if ntype_eqb ty TPyObject then Some (class_of v) else None.
+
+Lemma same_class ty v1 v2 : leaf_okb ty v1 = true -> leaf_okb ty v2 = true ->
+  optclass_eqb (leaf_cls ty v1) (leaf_cls ty v2) = true -> class_of v1 = class_of v2.
+Proof. destruct ty, v1, v2; cbn; try discriminate; reflexivity. Qed.
+
+(* the repaired leaf key identifies the constant *)
+Lemma leaf_key_exact ty1 v1 ty2 v2 :
+  leaf_okb ty1 v1 = true -> leaf_okb ty2 v2 = true -> float_okb v1 = true -> float_okb v2 = true ->
+  key_eq (leaf_key true ty1 v1) (leaf_key true ty2 v2) = true -> ty1 = ty2 /\ v1 = v2.
+Proof.
+  intros O1 O2 F1 F2 K. unfold leaf_key in K. cbn [key_eq] in K.
+  apply andb_prop in K. destruct K as [K Ks]. apply andb_prop in K. destruct K as [K Kc].
+  apply andb_prop in K. destruct K as [Kt Kv]. apply ntype_eqb_eq in Kt. subst ty2. split; [reflexivity|].
+  pose proof (same_class ty1 v1 v2 O1 O2 Kc) as SC.
+  destruct v1, v2; try discriminate SC; try reflexivity; cbn in Kv, Ks.
+  - f_equal. lia.
+  - f_equal. destruct b, b0; cbn in Kv; try reflexivity; discriminate.
+  - f_equal. unfold float_okb in *. apply float_exact; try lia. 
+  - f_equal. apply zlist_eqb_eq. assumption.
+  - f_equal. apply zlist_eqb_eq. assumption.
+Qed.
+
+Fixpoint keys_eq (l1 l2 : list key) : bool :=
+  match l1, l2 with
+  | [], [] => true
+  | x :: t1, y :: t2 => key_eq x y && keys_eq t1 t2
+  | _, _ => false
+  end.
+
+Lemma key_eq_cont_list t1 t2 l1 l2 :
+  key_eq (KCont t1 false l1) (KCont t2 false l2) = ntype_eqb t1 t2 && keys_eq l1 l2.
+Proof.
+  cbn. reflexivity.
+Qed.
+
+Lemma key_eq_leaf_cont ty v c s t f l : key_eq (KLeaf ty v c s) (KCont t f l) = false.
+Proof. reflexivity. Qed.
+Lemma key_eq_cont_leaf ty v c s t f l : key_eq (KCont t f l) (KLeaf ty v c s) = false.
+Proof. reflexivity. Qed.
+
+Lemma all_some_map {A} (f : A -> option key) l ks :
+  all_some (map f l) = Some ks -> Forall2 (fun a k => f a = Some k) l ks.
+Proof.
+  revert ks. induction l as [|a l IH]; intros ks H; cbn in H.
+  - inversion H. constructor.
+  - destruct (f a) as [k|] eqn:E; [|discriminate].
+    destruct (all_some (map f l)) as [r|]; [|discriminate]. inversion H; subst. constructor; auto.
+Qed.
+
+Lemma cont_key_inv os ty items k :
+  cont_key os ty items = Some k ->
+  exists ks, all_some items = Some ks /\ k = KCont ty (ntype_eqb ty TPyFrozenset && negb os) ks.
+Proof. unfold cont_key. destruct (all_some items) as [ks|]; [|discriminate]. intros E; inversion E. eauto. Qed.
+
+Definition eff_mult (lit : bool) (mult : option cnode) : option cnode :=
+  match mult with Some m => if lit then Some m else None | None => None end.
+
+Lemma eff_mult_if (lit : bool) (mult : option cnode) : (if lit then mult else None) = eff_mult lit mult.
+Proof. destruct mult, lit; reflexivity. Qed.
+
+Lemma mult_keys os (lit : bool) (mult : option cnode) :
+  (match mult with
+   | Some m => if lit then item_key true os m else Some (none_entry true)
+   | None => Some (none_entry true)
+   end) = match eff_mult lit mult with Some m => item_key true os m | None => Some (none_entry true) end.
+Proof. destruct mult, lit; reflexivity. Qed.
+
+Lemma mult_exact os lit1 m1 lit2 m2 k1 k2 :
+  mult_okb m1 = true -> mult_okb m2 = true ->
+  match eff_mult lit1 m1 with Some m => item_key true os m | None => Some (none_entry true) end = Some k1 ->
+  match eff_mult lit2 m2 with Some m => item_key true os m | None => Some (none_entry true) end = Some k2 ->
+  key_eq k1 k2 = true ->
+  (eff_mult lit1 m1 = None /\ eff_mult lit2 m2 = None) \/
+  (exists t1 v1 t2 v2 z, eff_mult lit1 m1 = Some (NLeaf t1 v1) /\ eff_mult lit2 m2 = Some (NLeaf t2 v2)
+                         /\ as_int v1 = Some z /\ as_int v2 = Some z).
+Proof.
+  intros O1 O2 K1 K2 E.
+  assert (OK : forall lit m e, mult_okb m = true -> eff_mult lit m = Some e ->
+               exists t v z, e = NLeaf t v /\ as_int v = Some z /\
+                 key_eq (none_entry true) (leaf_key true t v) = false /\ key_eq (leaf_key true t v) (none_entry true) = false).
+  { intros lit m e Hm He. destruct m as [m|]; [|discriminate]. destruct lit; [|discriminate]. inversion He; subst e.
+    destruct m as [t v| | |]; cbn in Hm; try discriminate.
+    destruct t, v; cbn in Hm; try discriminate; (do 3 eexists; repeat split; reflexivity). }
+  destruct (eff_mult lit1 m1) as [e1|] eqn:E1; destruct (eff_mult lit2 m2) as [e2|] eqn:E2.
+  - destruct (OK _ _ _ O1 E1) as (t1 & v1 & z1 & -> & A1 & _).
+    destruct (OK _ _ _ O2 E2) as (t2 & v2 & z2 & -> & A2 & _).
+    cbn [item_key] in K1, K2. inversion K1; subst k1. inversion K2; subst k2.
+    right. exists t1, v1, t2, v2, z1. repeat split; try assumption.
+    unfold leaf_key in E. cbn [key_eq] in E. 
+    apply andb_prop in E. destruct E as [E _]. apply andb_prop in E. destruct E as [E _].
+    apply andb_prop in E. destruct E as [_ Ev].
+    rewrite A2. f_equal.
+    destruct v1, v2; cbn in A1, A2, Ev; try discriminate; inversion A1; inversion A2; subst; unfold b2z in *;
+      repeat match goal with b : bool |- _ => destruct b end; lia.
+  - destruct (OK _ _ _ O1 E1) as (t1 & v1 & z1 & -> & _ & _ & F). cbn [item_key] in K1.
+    inversion K1; subst k1. inversion K2; subst k2. rewrite F in E. discriminate.
+  - destruct (OK _ _ _ O2 E2) as (t2 & v2 & z2 & -> & _ & F & _). cbn [item_key] in K2.
+    inversion K1; subst k1. inversion K2; subst k2. rewrite F in E. discriminate.
+  - left. auto.
+Qed.
+
+Lemma wf_not_frozenset ty : ntype_eqb ty TPyTuple || ntype_eqb ty TPyList = true -> ntype_eqb ty TPyFrozenset = false.
+Proof. destruct ty; cbn; intros; try discriminate; reflexivity. Qed.
+
+Lemma args_exact os args1 :
+  Forall (fun n1 => forall n2 k1 k2, wf_node n1 = true -> wf_node n2 = true ->
+            item_key true os n1 = Some k1 -> item_key true os n2 = Some k2 -> key_eq k1 k2 = true ->
+            exists c, denote n1 = Some c /\ denote n2 = Some c) args1 ->
+  forall args2 r1 r2, forallb wf_node args1 = true -> forallb wf_node args2 = true ->
+  all_some (map (item_key true os) args1) = Some r1 -> all_some (map (item_key true os) args2) = Some r2 ->
+  keys_eq r1 r2 = true ->
+  exists cs, opt_list (map denote args1) = Some cs /\ opt_list (map denote args2) = Some cs.
+Proof.
+  induction 1 as [|a1 args1 IHa1 _ IH]; intros args2 r1 r2 W1 W2 R1 R2 Er.
+  - cbn in R1. inversion R1; subst r1. destruct r2; [|discriminate].
+    destruct args2 as [|a2 args2]; [exists []; split; reflexivity|].
+    cbn in R2. destruct (item_key true os a2); [|discriminate].
+    destruct (all_some (map (item_key true os) args2)); discriminate.
+  - cbn [map all_some] in R1. destruct (item_key true os a1) as [k1|] eqn:Hk1; [|discriminate].
+    destruct (all_some (map (item_key true os) args1)) as [r1'|] eqn:R1'; [|discriminate].
+    inversion R1; subst r1. destruct r2 as [|k2 r2]; [discriminate|].
+    destruct args2 as [|a2 args2]; [discriminate|].
+    cbn [map all_some] in R2. destruct (item_key true os a2) as [k2'|] eqn:Hk2; [|discriminate].
+    destruct (all_some (map (item_key true os) args2)) as [r2'|] eqn:R2'; [|discriminate].
+    inversion R2; subst k2' r2'.
+    cbn [keys_eq] in Er. apply andb_prop in Er. destruct Er as [E1 Er].
+    cbn [forallb] in W1, W2. apply andb_prop in W1. destruct W1 as [Wa1 Wr1].
+    apply andb_prop in W2. destruct W2 as [Wa2 Wr2].
+    destruct (IHa1 a2 k1 k2 Wa1 Wa2 eq_refl Hk2 E1) as (c & D1 & D2).
+    destruct (IH args2 r1' r2 Wr1 Wr2 eq_refl R2' Er) as (cs & C1 & C2).
+    exists (c :: cs). cbn [map opt_list]. rewrite D1, D2, C1, C2. split; reflexivity.
+Qed.
+
+(* Main lemma: with the repaired keys, equal keys mean the same run-time constant *)
+Lemma item_key_exact os : forall n1 n2 k1 k2,
+  wf_node n1 = true -> wf_node n2 = true ->
+  item_key true os n1 = Some k1 -> item_key true os n2 = Some k2 ->
+  key_eq k1 k2 = true ->
+  exists c, denote n1 = Some c /\ denote n2 = Some c.
+Proof.
+  induction n1 as [ty1 v1|ty1 lit1 mult1 args1 IHm IHa|ty1 a1 b1 c1 IHa IHb IHc|] using cnode_ind2;
+    intros n2 k1 k2 W1 W2 K1 K2 E.
+  - (* leaf *)
+    cbn [item_key] in K1. inversion K1; subst k1.
+    destruct n2 as [ty2 v2|ty2 lit2 mult2 args2|ty2 a2 b2 c2|]; cbn [item_key] in K2.
+    + inversion K2; subst k2. cbn [wf_node] in W1, W2.
+      apply andb_prop in W1. destruct W1. apply andb_prop in W2. destruct W2.
+      destruct (leaf_key_exact ty1 v1 ty2 v2) as [-> ->]; try assumption. cbn. eauto.
+    + apply cont_key_inv in K2. destruct K2 as (ks & _ & ->). discriminate.
+    + apply cont_key_inv in K2. destruct K2 as (ks & _ & ->). discriminate.
+    + discriminate.
+  - (* sequence *)
+    cbn [item_key] in K1. rewrite mult_keys in K1. apply cont_key_inv in K1. destruct K1 as (ks1 & A1 & ->).
+    cbn [wf_node] in W1. apply andb_prop in W1. destruct W1 as [W1 Wa1]. apply andb_prop in W1. destruct W1 as [Wt1 Wm1].
+    rewrite (wf_not_frozenset _ Wt1) in E. cbn [andb] in E.
+    destruct n2 as [ty2 v2|ty2 lit2 mult2 args2|ty2 a2 b2 c2|]; cbn [item_key] in K2.
+    + inversion K2; subst k2. discriminate.
+    + rewrite mult_keys in K2. apply cont_key_inv in K2. destruct K2 as (ks2 & A2 & ->).
+      cbn [wf_node] in W2. apply andb_prop in W2. destruct W2 as [W2 Wa2]. apply andb_prop in W2. destruct W2 as [Wt2 Wm2].
+      rewrite (wf_not_frozenset _ Wt2) in E. cbn [andb] in E.
+      rewrite key_eq_cont_list in E. apply andb_prop in E. destruct E as [Et Ek]. apply ntype_eqb_eq in Et. subst ty2.
+      cbn [all_some] in A1, A2.
+      destruct (match eff_mult lit1 mult1 with Some m => item_key true os m | None => Some (none_entry true) end) as [mk1|] eqn:M1; [|discriminate].
+      destruct (match eff_mult lit2 mult2 with Some m => item_key true os m | None => Some (none_entry true) end) as [mk2|] eqn:M2; [|discriminate].
+      destruct (all_some (map (item_key true os) args1)) as [r1|] eqn:R1; [|discriminate].
+      destruct (all_some (map (item_key true os) args2)) as [r2|] eqn:R2; [|discriminate].
+      inversion A1; subst ks1. inversion A2; subst ks2. cbn [keys_eq] in Ek.
+      apply andb_prop in Ek. destruct Ek as [Em Er].
+      (* the items *)
+      destruct (args_exact os args1 IHa args2 r1 r2 Wa1 Wa2 R1 R2 Er) as (cs & C1 & C2).
+      cbn [denote]. rewrite C1, C2, !eff_mult_if.
+      destruct (mult_exact os lit1 mult1 lit2 mult2 mk1 mk2 Wm1 Wm2 M1 M2 Em)
+        as [[N1 N2]|(t1 & v1 & t2 & v2 & z & S1 & S2 & Z1 & Z2)].
+      * rewrite N1, N2. eauto.
+      * rewrite S1, S2, Z1, Z2. eauto.
+    + apply cont_key_inv in K2. destruct K2 as (ks2 & A2 & ->).
+      cbn [wf_node] in W2. apply andb_prop in W2. destruct W2 as [W2 _]. apply andb_prop in W2. destruct W2 as [W2 _].
+      apply andb_prop in W2. destruct W2 as [Wt2 _]. apply ntype_eqb_eq in Wt2. subst ty2. cbn [ntype_eqb andb] in E.
+      rewrite key_eq_cont_list in E. apply andb_prop in E. destruct E as [Et _]. apply ntype_eqb_eq in Et. subst ty1. discriminate.
+    + discriminate.
+  - (* slice *)
+    cbn [item_key] in K1. apply cont_key_inv in K1. destruct K1 as (ks1 & A1 & ->).
+    cbn [wf_node] in W1. apply andb_prop in W1. destruct W1 as [W1 Wc1]. apply andb_prop in W1. destruct W1 as [W1 Wb1].
+    apply andb_prop in W1. destruct W1 as [Wt1 Wa1]. apply ntype_eqb_eq in Wt1. subst ty1. cbn [ntype_eqb andb] in E.
+    destruct n2 as [ty2 v2|ty2 lit2 mult2 args2|ty2 a2 b2 c2|]; cbn [item_key] in K2.
+    + inversion K2; subst k2. discriminate.
+    + rewrite mult_keys in K2. apply cont_key_inv in K2. destruct K2 as (ks2 & A2 & ->).
+      cbn [wf_node] in W2. apply andb_prop in W2. destruct W2 as [W2 _]. apply andb_prop in W2. destruct W2 as [Wt2 _].
+      rewrite (wf_not_frozenset _ Wt2) in E. cbn [andb] in E.
+      rewrite key_eq_cont_list in E. apply andb_prop in E. destruct E as [Et _]. apply ntype_eqb_eq in Et. subst ty2. discriminate.
+    + apply cont_key_inv in K2. destruct K2 as (ks2 & A2 & ->).
+      cbn [wf_node] in W2. apply andb_prop in W2. destruct W2 as [W2 Wc2]. apply andb_prop in W2. destruct W2 as [W2 Wb2].
+      apply andb_prop in W2. destruct W2 as [Wt2 Wa2]. apply ntype_eqb_eq in Wt2. subst ty2. cbn [ntype_eqb andb] in E.
+      rewrite key_eq_cont_list in E. apply andb_prop in E. destruct E as [_ Ek].
+      cbn [all_some] in A1, A2.
+      destruct (item_key true os a1) as [ka1|] eqn:Ka1; [|discriminate].
+      destruct (item_key true os b1) as [kb1|] eqn:Kb1; [|discriminate].
+      destruct (item_key true os c1) as [kc1|] eqn:Kc1; [|discriminate].
+      destruct (item_key true os a2) as [ka2|] eqn:Ka2; [|discriminate].
+      destruct (item_key true os b2) as [kb2|] eqn:Kb2; [|discriminate].
+      destruct (item_key true os c2) as [kc2|] eqn:Kc2; [|discriminate].
+      inversion A1; subst ks1. inversion A2; subst ks2. cbn [keys_eq] in Ek.
+      apply andb_prop in Ek. destruct Ek as [Ea Ek]. apply andb_prop in Ek. destruct Ek as [Eb Ek].
+      apply andb_prop in Ek. destruct Ek as [Ec _].
+      destruct (IHa a2 ka1 ka2 Wa1 Wa2 eq_refl Ka2 Ea) as (xa & Da1 & Da2).
+      destruct (IHb b2 kb1 kb2 Wb1 Wb2 eq_refl Kb2 Eb) as (xb & Db1 & Db2).
+      destruct (IHc c2 kc1 kc2 Wc1 Wc2 eq_refl Kc2 Ec) as (xc & Dc1 & Dc2).
+      cbn [denote]. rewrite Da1, Da2, Db1, Db2, Dc1, Dc2. eauto.
+    + discriminate.
+  - discriminate.
+Qed.
+
+Lemma top_seq_key fx os ty lit mult args :
+  top_key fx os (TopSeq (NSeq ty lit mult args)) = item_key fx os (NSeq ty lit mult args).
+Proof.
+  cbn [top_key item_key]. unfold make_dedup_key. cbn [map]. rewrite map_map. f_equal. f_equal.
+  destruct mult, lit; reflexivity.
+Qed.
+
+Lemma item_key_exact_all os args : Forall (fun n1 => forall n2 k1 k2, wf_node n1 = true -> wf_node n2 = true ->
+            item_key true os n1 = Some k1 -> item_key true os n2 = Some k2 -> key_eq k1 k2 = true ->
+            exists c, denote n1 = Some c /\ denote n2 = Some c) args.
+Proof. apply Forall_forall. intros n _. apply item_key_exact. Qed.
+
+(* Theorem: with the repaired key function, two pooled containers (tuples, slices, frozensets,
+   nested, with multipliers) that get equal keys are identical constants *)
+Theorem dedup_injective t1 t2 k1 k2 :
+  wf_top t1 = true -> wf_top t2 = true ->
+  top_key true true t1 = Some k1 -> top_key true true t2 = Some k2 ->
+  key_eq k1 k2 = true ->
+  exists c1 c2, denote_top t1 = Some c1 /\ denote_top t2 = Some c2 /\ identical_top c1 c2.
+Proof.
+  intros W1 W2 K1 K2 E.
+  assert (SEQ : forall ty l m a k, wf_node (NSeq ty l m a) = true -> item_key true true (NSeq ty l m a) = Some k ->
+                exists ks, k = KCont ty false ks /\ ntype_eqb ty TPyTuple || ntype_eqb ty TPyList = true).
+  { intros ty l m a k W K. cbn [item_key] in K. apply cont_key_inv in K. destruct K as (ks & _ & ->).
+    cbn [wf_node] in W. apply andb_prop in W. destruct W as [W _]. apply andb_prop in W. destruct W as [W _].
+    rewrite (wf_not_frozenset _ W). eauto. }
+  assert (SLI : forall ty a b c k, wf_node (NSlice ty a b c) = true ->
+                top_key true true (TopSlice (NSlice ty a b c)) = Some k ->
+                exists k', k = KCont TPySlice false [k'] /\ item_key true true (NSlice ty a b c) = Some k' /\ ty = TPySlice).
+  { intros ty a b c k W K.
+    assert (ty = TPySlice).
+    { cbn [wf_node] in W. apply andb_prop in W. destruct W as [W _]. apply andb_prop in W. destruct W as [W _].
+      apply andb_prop in W. destruct W as [W _]. apply ntype_eqb_eq in W. assumption. }
+    subst ty. cbn [top_key] in K. unfold make_dedup_key in K. cbn [map] in K.
+    apply cont_key_inv in K. destruct K as (ks & A & ->). cbn [all_some] in A.
+    destruct (item_key true true (NSlice TPySlice a b c)) as [k'|]; [|discriminate]. inversion A; subst. eauto. }
+  assert (FRO : forall args k, top_key true true (TopFrozen args) = Some k ->
+                exists ks, k = KCont TPyFrozenset false ks /\ all_some (map (item_key true true) args) = Some ks).
+  { intros args k K. cbn [top_key] in K. unfold make_dedup_key in K. rewrite map_map in K.
+    apply cont_key_inv in K. destruct K as (ks & A & ->). eauto. }
+  destruct t1 as [n1|n1|args1], t2 as [n2|n2|args2].
+  - (* tuple / tuple *)
+    destruct n1 as [| ty1 l1 m1 a1 | |]; try discriminate W1. destruct n2 as [| ty2 l2 m2 a2 | |]; try discriminate W2.
+    rewrite top_seq_key in K1, K2. cbn [wf_top] in W1, W2.
+    destruct (item_key_exact true _ _ _ _ W1 W2 K1 K2 E) as (c & D1 & D2).
+    exists (VConst c), (VConst c). cbn [denote_top]. rewrite D1, D2. repeat split.
+  - destruct n1 as [| ty1 l1 m1 a1 | |]; try discriminate W1. destruct n2 as [| | ty2 a2 b2 c2 |]; try discriminate W2.
+    rewrite top_seq_key in K1. cbn [wf_top] in W1, W2.
+    destruct (SEQ _ _ _ _ _ W1 K1) as (ks & -> & T1). destruct (SLI _ _ _ _ _ W2 K2) as (k' & -> & _ & _).
+    rewrite key_eq_cont_list in E. apply andb_prop in E. destruct E as [Et _]. apply ntype_eqb_eq in Et. subst. discriminate.
+  - destruct n1 as [| ty1 l1 m1 a1 | |]; try discriminate W1.
+    rewrite top_seq_key in K1. cbn [wf_top] in W1.
+    destruct (SEQ _ _ _ _ _ W1 K1) as (ks & -> & T1). destruct (FRO _ _ K2) as (ks2 & -> & _).
+    rewrite key_eq_cont_list in E. apply andb_prop in E. destruct E as [Et _]. apply ntype_eqb_eq in Et. subst. discriminate.
+  - destruct n1 as [| | ty1 a1 b1 c1 |]; try discriminate W1. destruct n2 as [| ty2 l2 m2 a2 | |]; try discriminate W2.
+    rewrite top_seq_key in K2. cbn [wf_top] in W1, W2.
+    destruct (SEQ _ _ _ _ _ W2 K2) as (ks & -> & T2). destruct (SLI _ _ _ _ _ W1 K1) as (k' & -> & _ & _).
+    rewrite key_eq_cont_list in E. apply andb_prop in E. destruct E as [Et _]. apply ntype_eqb_eq in Et. subst. discriminate.
+  - (* slice / slice *)
+    destruct n1 as [| | ty1 a1 b1 c1 |]; try discriminate W1. destruct n2 as [| | ty2 a2 b2 c2 |]; try discriminate W2.
+    cbn [wf_top] in W1, W2.
+    destruct (SLI _ _ _ _ _ W1 K1) as (k1' & -> & I1 & _). destruct (SLI _ _ _ _ _ W2 K2) as (k2' & -> & I2 & _).
+    rewrite key_eq_cont_list in E. apply andb_prop in E. destruct E as [_ Ek]. cbn [keys_eq] in Ek.
+    apply andb_prop in Ek. destruct Ek as [Ek _].
+    destruct (item_key_exact true _ _ _ _ W1 W2 I1 I2 Ek) as (c & D1 & D2).
+    exists (VConst c), (VConst c). cbn [denote_top]. rewrite D1, D2. repeat split.
+  - destruct n1 as [| | ty1 a1 b1 c1 |]; try discriminate W1. cbn [wf_top] in W1.
+    destruct (SLI _ _ _ _ _ W1 K1) as (k1' & -> & _ & _). destruct (FRO _ _ K2) as (ks2 & -> & _).
+    rewrite key_eq_cont_list in E. discriminate.
+  - destruct n2 as [| ty2 l2 m2 a2 | |]; try discriminate W2.
+    rewrite top_seq_key in K2. cbn [wf_top] in W2.
+    destruct (SEQ _ _ _ _ _ W2 K2) as (ks & -> & T2). destruct (FRO _ _ K1) as (ks1 & -> & _).
+    rewrite key_eq_cont_list in E. apply andb_prop in E. destruct E as [Et _]. apply ntype_eqb_eq in Et. subst. discriminate.
+  - destruct n2 as [| | ty2 a2 b2 c2 |]; try discriminate W2. cbn [wf_top] in W2.
+    destruct (SLI _ _ _ _ _ W2 K2) as (k2' & -> & _ & _). destruct (FRO _ _ K1) as (ks1 & -> & _).
+    rewrite key_eq_cont_list in E. discriminate.
+  - (* frozenset / frozenset: ordered keys, so the argument lists denote the same values in order *)
+    destruct (FRO _ _ K1) as (ks1 & -> & A1). destruct (FRO _ _ K2) as (ks2 & -> & A2).
+    rewrite key_eq_cont_list in E. apply andb_prop in E. destruct E as [_ Ek]. cbn [wf_top] in W1, W2.
+    destruct (args_exact true args1 (item_key_exact_all true args1) args2 ks1 ks2 W1 W2 A1 A2 Ek) as (cs & C1 & C2).
+    exists (VFrozen (fs_build cs)), (VFrozen (fs_build cs)). cbn [denote_top]. rewrite C1, C2.
+    repeat split; auto.
+Qed.
+
+(* ... and the key function as it is merges different constants (findings): the sign of a float
+   zero is not part of the key, and a frozenset's key forgets the order of ==-equal elements.
+   Each of the two repairs alone still leaves a counterexample. *)
+Definition wit_tuple (bits : Z) : topnode :=
+  TopSeq (NSeq TPyTuple true None [NLeaf TPyFloat (SFloat bits); NLeaf TPyInt (SInt 1)]).
+Definition wit_frozen (a b : scalar * ntype) : topnode :=
+  TopFrozen [NLeaf (snd a) (fst a); NLeaf (snd b) (fst b)].
+
+Theorem dedup_unrepaired_refuted fx os : fx && os = false ->
+  exists t1 t2 k1 k2 c1 c2,
+    wf_top t1 = true /\ wf_top t2 = true /\
+    top_key fx os t1 = Some k1 /\ top_key fx os t2 = Some k2 /\ key_eq k1 k2 = true /\
+    denote_top t1 = Some c1 /\ denote_top t2 = Some c2 /\ ~ identical_top c1 c2.
+Proof.
+  intros H. destruct fx.
+  - (* floats exact, frozensets unordered: frozenset((1.0, 1)) vs frozenset((1, 1.0)) *)
+    destruct os; [discriminate|].
+    exists (wit_frozen (SFloat 4607182418800017408, TPyFloat) (SInt 1, TPyInt)),
+           (wit_frozen (SInt 1, TPyInt) (SFloat 4607182418800017408, TPyFloat)).
+    do 2 eexists. exists (VFrozen [CScalar (SFloat 4607182418800017408)]), (VFrozen [CScalar (SInt 1)]).
+    repeat split; try (vm_compute; reflexivity).
+    intros [A _]. specialize (A (CScalar (SFloat 4607182418800017408)) (or_introl eq_refl)).
+    destruct A as [A|A]; [discriminate A|exact A].
+  - (* the sign of a float zero is not in the key: (0.0, 1) vs (-0.0, 1) *)
+    exists (wit_tuple 0), (wit_tuple (2 ^ 63)).
+    do 2 eexists.
+    exists (VConst (CSeq TPyTuple [CScalar (SFloat 0); CScalar (SInt 1)])),
+           (VConst (CSeq TPyTuple [CScalar (SFloat 9223372036854775808); CScalar (SInt 1)])).
+    repeat split; try (vm_compute; reflexivity).
+    cbv [identical_top identical]. discriminate.
+Qed.
+
+(* the same for a slice and a nested tuple, on the current code *)
+Theorem dedup_current_refuted_slice_nested :
+  (exists k, top_key false false (TopSlice (NSlice TPySlice (NLeaf TPyFloat (SFloat 0)) (NLeaf TPyInt (SInt 1)) (NLeaf TPyObject SNone))) = Some k
+     /\ exists k', top_key false false (TopSlice (NSlice TPySlice (NLeaf TPyFloat (SFloat (2 ^ 63))) (NLeaf TPyInt (SInt 1)) (NLeaf TPyObject SNone))) = Some k'
+     /\ key_eq k k' = true) /\
+  (exists k, top_key false false (TopSeq (NSeq TPyTuple true None [NSeq TPyTuple true None [NLeaf TPyFloat (SFloat 0)]; NLeaf TPyInt (SInt 2)])) = Some k
+     /\ exists k', top_key false false (TopSeq (NSeq TPyTuple true None [NSeq TPyTuple true None [NLeaf TPyFloat (SFloat (2 ^ 63))]; NLeaf TPyInt (SInt 2)])) = Some k'
+     /\ key_eq k k' = true).
+Proof. split; eexists; (split; [vm_compute; reflexivity|]); eexists; (split; [vm_compute; reflexivity|]); vm_compute; reflexivity. Qed.
+
+(* the hazard itself: Python == does not separate different constants *)
+Lemma py_eq_not_identical :
+  scalar_eq (SInt 1) (SFloat 4607182418800017408) = true /\ scalar_eq (SInt 1) (SBool true) = true
+  /\ scalar_eq (SFloat 0) (SFloat (2 ^ 63)) = true /\ scalar_eq (SStr [97]) (SBytes [97]) = false
+  /\ scalar_eq (SFloat 9221120237041090560) (SFloat 9221120237041090560) = false.
+Proof. vm_compute. auto. Qed.
+
+(* ------------------------------------------------------------------ *)
+(* D. constant folding of int / bool literals                          *)
+(* ------------------------------------------------------------------ *)
+
+Lemma hex_text_value z : str_to_number (strip_L (py_hex z)) = Some z.
+Proof. destruct (py_hex_roundtrip z) as (S & R). rewrite S. exact R. Qed.
+
+(* Theorem: whenever visit_BinopNode replaces "a op b" (BoolNode/IntNode literals) by a new literal
+   node, that node has the class (bool/int) and the value of Python's own result *)
+Theorem fold_binop_exact op a b f x :
+  fold_binop op a b = Some f ->
+  exists r, py_binop op a b = Some r /\ folded_value x f = Some r.
+Proof.
+  unfold fold_binop. destruct (py_binop op a b) as [r|] eqn:P; [|discriminate].
+  intros F. exists r. split; [reflexivity|].
+  destruct (negb (match a, b with LBool _, LBool _ => true | _, _ => false end) || op_in_arith_string op) eqn:T.
+  - inversion F; subst f. cbn [folded_value]. rewrite hex_text_value.
+    (* the result of an int-class fold is an int *)
+    assert (exists z, r = LInt z) as (z & ->).
+    { destruct op, a, b; cbn in P, T; try discriminate;
+        repeat match goal with H : context [if ?c then _ else _] |- _ => destruct c end;
+        try discriminate; inversion P; eauto. }
+    reflexivity.
+  - destruct r as [v|z]; [|discriminate]. inversion F; subst f. reflexivity.
+Qed.
+
+(* every constant int/bool operation is folded (the BoolNode branch never meets an int) *)
+Theorem fold_binop_total op a b r : py_binop op a b = Some r -> exists f, fold_binop op a b = Some f.
+Proof.
+  intros P. unfold fold_binop. rewrite P.
+  destruct op, a, b; cbn in *; eauto;
+    repeat match goal with H : context [if ?c then _ else _] |- _ => destruct c end; inversion P; eauto.
+Qed.
+
+(* unary operators on a literal operand *)
+Theorem fold_unop_exact op a f :
+  fold_unop op a = Some f -> folded_value a f = Some (py_unop op a).
+Proof.
+  unfold fold_unop.
+  assert (STR : forall z t, py_str z = Some t -> folded_value a (FInt t) = Some (LInt z)).
+  { intros z t PS. cbn [folded_value]. destruct (py_str_roundtrip z t PS) as (_ & R). rewrite R. reflexivity. }
+  destruct op, a as [b|z]; cbn [py_unop lit_int int_of_lit bool_of_lit];
+    try (destruct (py_str _) as [t|] eqn:PS; [|discriminate]; intros F; inversion F; subst f; apply STR; exact PS);
+    try discriminate; intros F; inversion F; subst f; cbn [folded_value]; try reflexivity.
+  - f_equal. f_equal. destruct b; reflexivity.
+  - f_equal. f_equal. unfold b2z. destruct (Z.eqb_spec z 0); reflexivity.
+Qed.
+
+Theorem fold_unop_bool_total op b : exists f, fold_unop op (LBool b) = Some f.
+Proof.
+  destruct op; cbn [fold_unop py_unop lit_int int_of_lit]; try (eexists; reflexivity);
+    destruct b; eexists; vm_compute; reflexivity.
+Qed.
